@@ -142,9 +142,13 @@ def run(ctx):
         if wt:
             want = want * Form({(('self.MWs', -1),): 1})
         prod = want * Form.atom(S)
-        want_ret = Form.atom('self._X') * Form.atom('(%s).sum()' % prod.pretty())
+        # the conversion is read through the X property: for an item of a reaction set self._X is the set's whole array
+        want_ret = Form.atom('self.X') * Form.atom('(%s).sum()' % prod.pretty())
         if ps[0].ret == want_ret:
-            d1.ok(cons, 'dH = self._X * ((%s) * S).sum()' % want.pretty(), f, ps[0].ret_node)
+            d1.ok(cons, 'dH = self.X * ((%s) * S).sum()' % want.pretty(), f, ps[0].ret_node)
+        elif ps[0].ret == Form.atom('self._X') * Form.atom('(%s).sum()' % prod.pretty()):
+            d1.fail(cons, 'conversion-representation', 'dH multiplies by self._X; ReactionItem inherits dH and its _X is the conversion ARRAY of the whole set (its own '
+                    'conversion is self.X = self._X[self._index]), so an item reports an array of heats', f, ps[0].ret_node)
         else:
             d1.fail(cons, 'form', 'dH is not X*sum((Hf+latent)*S%s): returns %s' % ('/MW' if wt else '', ps[0].ret.pretty()), f, ps[0].ret_node)
 
